@@ -31,12 +31,12 @@ import (
 var gateFuncs = map[string]string{"CheckPermissions": "GateSudoers"}
 
 // the condition under which a gate function returns nil, parameters written $0, $1, … and the
-// receiver $r
+// receiver $r.  (After canonEq: a comparison of two PARSED addresses is written addr(X)==addr(Y), a
+// comparison of the two strings X==Y, operands in lexical order.)
 var gateForms = map[string]string{
-	"$0==$1": "GateRoot", // (sender, root string)
-	"$1==$0": "GateRoot",
-	"sdk.AccAddressFromBech32($0.Root).Equals(sdk.AccAddressFromBech32($1.Sender))":          "GateRoot", // (sudoers, msg)
-	"sdk.AccAddressFromBech32($1.Sender).Equals(sdk.AccAddressFromBech32($0.Root))":          "GateRoot",
+	"$0==$1":                         "GateRoot", // (sender, root string) compared as STRINGS
+	"addr($0)==addr($1)":             "GateRoot", // (sender, root string) parsed, then compared
+	"addr($0.Root)==addr($1.Sender)": "GateRoot", // (sudoers, msg)
 	"member($r.Sudoers.Get($1).Contracts,$0.String())||$0.String()==$r.Sudoers.Get($1).Root": "GateSudoers",
 }
 
@@ -55,6 +55,30 @@ func closeParen(s string, i int) int {
 		}
 	}
 	return -1
+}
+
+// canonEq writes A.Equals(B) with both sides sdk.AccAddressFromBech32(..) as addr(X)==addr(Y) and puts the
+// operands of a top-level == in lexical order, so that the text says WHAT is compared (strings or parsed
+// addresses) and nothing about the order it is written in.
+func canonEq(c string) string {
+	const pre = "sdk.AccAddressFromBech32("
+	if strings.HasPrefix(c, pre) && !strings.Contains(c, "||") && !strings.Contains(c, "&&") {
+		i := closeParen(c, len(pre))
+		if i > 0 && strings.HasPrefix(c[i:], ").Equals("+pre) && strings.HasSuffix(c, "))") {
+			a, b := c[len(pre):i], c[i+len(").Equals("+pre):len(c)-2]
+			if balanced(a) && balanced(b) {
+				c = "addr(" + a + ")==addr(" + b + ")"
+			}
+		}
+	}
+	if !strings.Contains(c, "||") && !strings.Contains(c, "&&") && strings.Count(c, "==") == 1 {
+		i := strings.Index(c, "==")
+		a, b := c[:i], c[i+2:]
+		if b < a {
+			c = b + "==" + a
+		}
+	}
+	return c
 }
 
 // canonMember writes the two spellings of "y is an element of the list X" the same way:
@@ -278,7 +302,7 @@ func main() {
 				if fd.Type.Results == nil || len(fd.Type.Results.List) != 1 || Nospace(fd.Type.Results.List[0].Type) != "error" {
 					continue
 				}
-				form := canonMember(acceptCondition(fd))
+				form := canonEq(canonMember(acceptCondition(fd)))
 				kind, ok := gateForms[form]
 				if !ok {
 					continue
@@ -452,6 +476,19 @@ func main() {
 	}
 	fmt.Printf("Definition gate_functions : list string := [%s].\n", strings.Join(q, "; "))
 
+	fmt.Println("(* x/sudo/keeper: what is written into the stored sudoers from a message: the new root, the strings added to / *)")
+	fmt.Println("(* removed from the contracts set; canonical = the String() of the parsed address (locals inlined, range variable = elem(list)) *)")
+	fmt.Println("Definition sudoers_writes : list sudoers_write := [")
+	sws := sudoersWrites(repo)
+	for i, s := range sws {
+		sep := ";"
+		if i == len(sws)-1 {
+			sep = ""
+		}
+		fmt.Printf("  {| sw_fn := %s; sw_what := %s; sw_expr := %s; sw_canonical := %s |}%s\n",
+			CoqString(s.fn), CoqString(s.what), CoqString(s.expr), CoqBool(s.canonical), sep)
+	}
+	fmt.Println("].")
 	fmt.Println("(* app/wasmext: every path from the contract-message entry point (DispatchMsg) to the Msg router lookup: *)")
 	fmt.Println("(* switch branches taken, and whether the signer-vs-dispatching-contract guard lies on the path *)")
 	fmt.Println("Definition wasm_routes : list route_path := [")
@@ -464,6 +501,126 @@ func main() {
 		fmt.Printf("  {| rp_branch := %s; rp_signer_guard := %s |}%s\n", CoqString(r.branch), CoqBool(r.guarded), sep)
 	}
 	fmt.Println("].")
+}
+
+// ---------------------------------------------------------------- strings written into the sudoers
+
+type sudoersWrite struct {
+	fn, what, expr string
+	canonical      bool
+}
+
+func isCanonicalAddrString(e string) bool {
+	const pre = "sdk.AccAddressFromBech32("
+	if !strings.HasPrefix(e, pre) || !strings.HasSuffix(e, ").String()") {
+		return false
+	}
+	return closeParen(e, len(pre)) == len(e)-len(").String()")
+}
+
+// sudoersWrites reads every function of x/sudo/keeper in statement order with its locals inlined and
+// reports the assignments to a .Root field and the arguments of .Contracts.Add / .Contracts.Remove.
+func sudoersWrites(repo string) []sudoersWrite {
+	var out []sudoersWrite
+	for _, fl := range ParseDir(filepath.Join(repo, "x", "sudo", "keeper")) {
+		for _, dd := range fl.F.Decls {
+			fd, ok := dd.(*ast.FuncDecl)
+			if !ok || fd.Body == nil {
+				continue
+			}
+			env := map[string]string{}
+			if fd.Recv != nil && len(fd.Recv.List) == 1 && len(fd.Recv.List[0].Names) == 1 {
+				env[fd.Recv.List[0].Names[0].Name] = "$r"
+			}
+			pi := 0
+			for _, f := range fd.Type.Params.List {
+				for _, nm := range f.Names {
+					env[nm.Name] = fmt.Sprintf("$%d", pi)
+					pi++
+				}
+				if len(f.Names) == 0 {
+					pi++
+				}
+			}
+			name := fd.Name.Name
+			if r := recvName(fd); r != "" {
+				name = r + "." + name
+			}
+			record := func(what string, e ast.Expr) {
+				txt := render(e, env)
+				out = append(out, sudoersWrite{name, what, txt, isCanonicalAddrString(txt)})
+			}
+			scanCalls := func(n ast.Node) {
+				ast.Inspect(n, func(x ast.Node) bool {
+					if _, ok := x.(*ast.BlockStmt); ok {
+						return false
+					}
+					c, ok := x.(*ast.CallExpr)
+					if !ok || len(c.Args) != 1 {
+						return true
+					}
+					sel, ok := c.Fun.(*ast.SelectorExpr)
+					if !ok || (sel.Sel.Name != "Add" && sel.Sel.Name != "Remove") {
+						return true
+					}
+					if on, ok := sel.X.(*ast.SelectorExpr); ok && on.Sel.Name == "Contracts" {
+						record(strings.ToLower(sel.Sel.Name), c.Args[0])
+					}
+					return true
+				})
+			}
+			var walk func(list []ast.Stmt)
+			walk = func(list []ast.Stmt) {
+				for _, st := range list {
+					switch x := st.(type) {
+					case *ast.AssignStmt:
+						scanCalls(x)
+						for i, l := range x.Lhs {
+							if sel, ok := l.(*ast.SelectorExpr); ok && sel.Sel.Name == "Root" && i < len(x.Rhs) {
+								record("root", x.Rhs[i])
+							}
+						}
+						if id, ok := x.Lhs[0].(*ast.Ident); ok && id.Name != "_" && len(x.Rhs) >= 1 {
+							env[id.Name] = render(x.Rhs[0], env)
+						}
+					case *ast.RangeStmt:
+						if v, ok := x.Value.(*ast.Ident); ok && v.Name != "_" {
+							env[v.Name] = "elem(" + render(x.X, env) + ")"
+						}
+						walk(x.Body.List)
+					case *ast.IfStmt:
+						if x.Init != nil {
+							walk([]ast.Stmt{x.Init})
+						}
+						walk(x.Body.List)
+						if x.Else != nil {
+							walk([]ast.Stmt{x.Else})
+						}
+					case *ast.ForStmt:
+						walk(x.Body.List)
+					case *ast.BlockStmt:
+						walk(x.List)
+					case *ast.SwitchStmt:
+						walk(x.Body.List)
+					case *ast.TypeSwitchStmt:
+						walk(x.Body.List)
+					case *ast.CaseClause:
+						walk(x.Body)
+					default:
+						scanCalls(st)
+					}
+				}
+			}
+			walk(fd.Body.List)
+		}
+	}
+	sort.SliceStable(out, func(i, j int) bool {
+		if out[i].what != out[j].what {
+			return out[i].what < out[j].what
+		}
+		return out[i].fn < out[j].fn
+	})
+	return out
 }
 
 // ---------------------------------------------------------------- paths of the wasm message handler
